@@ -1,50 +1,14 @@
-(* C14: two additions found necessary while tying the models to the real code.
-   (1) fit_bspline: in exact arithmetic the control-point count covers the index of every data point
-       (fit_impl.hpp:320 vs :330) - the binary64 code can be one short (known finding C14-bspline-numpts-rounding).
-   (2) reparameterize_spline: the model exhibits the gap the real code shows (known finding C14-reparam-eps-clamp-gap):
-       when the acceleration bound forces vi^2 + 2 ds ai below eps, the clamped segment ends short of the next grid
-       point, so s jumps at the knot although every hypothesis of reparam_monotone holds. *)
+(* C14: the forward pass of reparameterize_spline, taken on its own (arbitrary v2max), can end a segment short of
+   the next grid point: when the acceleration bound forces vi^2 + 2 ds ai below eps, the clamped segment covers less
+   than ds, so s jumps at the knot although every hypothesis of reparam_monotone holds.  On the tree before commit
+   80e48c1 the backward pass produced such v2max (finding C14-reparam-eps-clamp-gap, fixed); since then row [4] of the
+   backward LP excludes the state used below (Proofs/C14_ReparamLP.v, onto_clamp_witness_excluded_by_row4, and
+   reparam_lp_row4_radicand_nonneg for the general statement).  The theorem stays: it documents that "onto" is a
+   property of backward + forward pass together, not of the forward pass. *)
 From Coq Require Import QArith Qabs Qminmax Qround List ZArith Lia Lqa.
 From SV Require Import Model.C14_Reparam Model.C14_Misc Proofs.C14_Reparam Proofs.C14_Misc.
 Import ListNotations.
 Local Open Scope Q_scope.
-
-(* istar of fit_impl.hpp:330 for a data time t *)
-Definition bs_istar (t0 dt t : Q) : Z := Qfloor ((t - t0) / dt).
-
-Theorem num_pts_covers_index : forall K t0 t1 dt t,
-  0 < dt -> t0 <= t -> t <= t1 ->
-  (0 <= bs_istar t0 dt t)%Z /\ (bs_istar t0 dt t + K + 1 <= num_pts K t0 t1 dt)%Z.
-Proof.
-  intros K t0 t1 dt t Hdt H0 H1. unfold bs_istar, num_pts. split.
-  - assert (H : 0 <= (t - t0) / dt) by (apply Qle_shift_div_l; [exact Hdt|lra]).
-    apply Qfloor_resp_le in H. change 0 with (inject_Z 0) in H. rewrite Qfloor_Z in H. exact H.
-  - assert (H : (t - t0) / dt + 1 <= (t1 - t0 + dt) / dt).
-    { rewrite span_ratio by exact Hdt.
-      assert (Hd : (t - t0) / dt <= (t1 - t0) / dt).
-      { apply Qle_shift_div_l; [exact Hdt|]. 
-        assert (E : (t - t0) / dt * dt == t - t0) by (field; lra). rewrite E. lra. }
-      lra. }
-    apply Qfloor_resp_le in H.
-    assert (E : Qfloor ((t - t0) / dt + 1) = (Qfloor ((t - t0) / dt) + 1)%Z).
-    { change 1 with (inject_Z 1). 
-      pose proof (Qfloor_le ((t - t0) / dt)) as Ha. pose proof (Qlt_floor ((t - t0) / dt)) as Hb.
-      set (q := (t - t0) / dt) in *. set (f := Qfloor q) in *.
-      assert (H2 : (f + 1 <= Qfloor (q + inject_Z 1))%Z).
-      { assert (Hx : inject_Z (f + 1) <= q + inject_Z 1) by (rewrite inject_Z_plus; lra).
-        apply Qfloor_resp_le in Hx. rewrite Qfloor_Z in Hx. exact Hx. }
-      assert (H3 : (Qfloor (q + inject_Z 1) < f + 2)%Z).
-      { assert (Hx : q + inject_Z 1 < inject_Z (f + 2)).
-        { rewrite inject_Z_plus. rewrite inject_Z_plus in Hb. change (inject_Z 2) with 2. change (inject_Z 1) with 1 in *. lra. }
-        pose proof (Qfloor_le (q + inject_Z 1)) as Hy.
-        assert (Hz : inject_Z (Qfloor (q + inject_Z 1)) < inject_Z (f + 2)) by lra.
-        rewrite <- Zlt_Qlt in Hz. exact Hz. }
-      lia. }
-    rewrite E in H. lia.
-Qed.
-
-Example num_pts_covers_index_ex : (bs_istar 0 (1 # 2) 10 + 3 + 1 <= num_pts 3 0 10 (1 # 2))%Z.
-Proof. vm_compute. discriminate. Qed.
 
 (* vi2 = 1/4, one degree of freedom with vel = 1, acc = 8, acc_max = 1: ai = (1 - 8/4)/1 = -1, ds = 1/4:
    vi2 + 2 ds ai = -1/4 < eps  ->  clamp;  the segment covers (vi2 - eps)/2 = 0.125 - 5e-9 < ds = 0.25 *)
